@@ -207,3 +207,52 @@ def gate_matrix(name: str, param=None) -> sp.Matrix:
     if name == "PHASE":
         return PHASE(param)
     raise Untranslatable(f"no reference matrix for {name}")
+
+
+# ---------------------------------------------------------------------------------------------------
+# matrix-valued expressions (numpy spelling -> sympy matrix algebra)
+def to_matrix_expr(e: ast.AST, env: Dict[str, sp.Basic]):
+    """numpy matrix algebra over named square matrices: a.T, a.dot(b), a @ b, np.dot(a, b), np.matmul, np.transpose, np.linalg.multi_dot,
+    reduce(np.dot, (a, b, c)), scalar factors.  `env` maps source text to sympy MatrixSymbols / scalars."""
+    txt = ast.unparse(e)
+    if txt in env:
+        return env[txt]
+    if isinstance(e, ast.Attribute) and e.attr == "T":
+        return to_matrix_expr(e.value, env).T
+    if isinstance(e, ast.BinOp) and isinstance(e.op, ast.MatMult):
+        return to_matrix_expr(e.left, env) * to_matrix_expr(e.right, env)
+    if isinstance(e, ast.BinOp) and isinstance(e.op, (ast.Mult, ast.Add, ast.Sub)):
+        a, b = to_matrix_expr(e.left, env), to_matrix_expr(e.right, env)
+        return a * b if isinstance(e.op, ast.Mult) else (a + b if isinstance(e.op, ast.Add) else a - b)
+    if isinstance(e, ast.Constant) and isinstance(e.value, (int, float)):
+        return sp.nsimplify(e.value)
+    if isinstance(e, ast.Call):
+        fn = ast.unparse(e.func)
+        if isinstance(e.func, ast.Attribute) and e.func.attr == "dot" and len(e.args) == 1 and fn not in ("np.dot", "numpy.dot"):
+            return to_matrix_expr(e.func.value, env) * to_matrix_expr(e.args[0], env)
+        if isinstance(e.func, ast.Attribute) and e.func.attr == "transpose" and not e.args and fn not in ("np.transpose",):
+            return to_matrix_expr(e.func.value, env).T
+        if fn in ("np.dot", "numpy.dot", "np.matmul", "numpy.matmul") and len(e.args) == 2:
+            return to_matrix_expr(e.args[0], env) * to_matrix_expr(e.args[1], env)
+        if fn in ("np.transpose", "numpy.transpose") and len(e.args) == 1:
+            return to_matrix_expr(e.args[0], env).T
+        if fn in ("np.linalg.multi_dot", "numpy.linalg.multi_dot") and len(e.args) == 1 and isinstance(e.args[0], (ast.List, ast.Tuple)):
+            out = None
+            for a in e.args[0].elts:
+                m = to_matrix_expr(a, env)
+                out = m if out is None else out * m
+            return out
+        if fn in ("reduce", "functools.reduce") and len(e.args) == 2 and ast.unparse(e.args[0]) in ("np.dot", "numpy.dot", "np.matmul") and isinstance(e.args[1], (ast.List, ast.Tuple)):
+            out = None
+            for a in e.args[1].elts:
+                m = to_matrix_expr(a, env)
+                out = m if out is None else out * m
+            return out
+    raise Untranslatable(f"matrix expression {txt}")
+
+
+def matrix_expr_equal(a, b) -> bool:
+    try:
+        return sp.simplify(sp.expand(a.doit()) - sp.expand(b.doit())) == sp.ZeroMatrix(*a.shape) or sp.expand(a.doit()) == sp.expand(b.doit())
+    except Exception:
+        return False
